@@ -18,7 +18,7 @@ class Finding:
         self.file = file
         self.func = func
         self.construct = " ".join(str(construct).split())
-        self.line = line
+        self.line = int(line) if isinstance(line, float) else line
         self.message = message
         self.witness = witness
 
